@@ -473,15 +473,18 @@ def _defective_designs(chk, table_path):
 
 
 def _life_selftest(chk, drv, life):
-    """Flip the prediction of one held-tick timer case to 'no timer left' and of one bulk case to 'sendLoop left':
-    the driver must object to both."""
+    """Flip the prediction of one held-tick timer case ('no timer left' if the model predicts a timer left armed, as it
+    did before the keep-alive client was repaired; 'timer left' if it predicts none) and of one bulk case to 'sendLoop
+    left': the driver must object to both."""
     vt = next((x for x in life if x["kind"] == "timer" and x.get("hold") == "tick"), None)
     vb = next((x for x in life if x["kind"] == "bulk"), None)
     if vt is None or vb is None:
         raise vlib.MachineryError("life self-test: no held-tick timer case / no bulk case")
     v1 = json.loads(json.dumps(vt))
+    leaks = all(o["leak"] for o in v1["pred"] if o["at"] == "end")
     for o in v1["pred"]:
-        o["leak"] = False
+        o["leak"] = not leaks
+    want1 = "leak=timer:unpredicted" if leaks else "end:unpredicted:leak=false"
     v2 = json.loads(json.dumps(vb))
     for o in v2["pred"]:
         o["alive"] = ["send"]
@@ -490,10 +493,10 @@ def _life_selftest(chk, drv, life):
     p = vlib.run_cmd([drv, "life", path], timeout=600, env={"VERIF_SEED": chk.seed, "VERIF_TIER": chk.tier})
     keys = [json.loads(l).get("key", "") for l in p.stdout.splitlines()
             if l.startswith("{") and json.loads(l).get("t") == "disagree"]
-    if not any(k.endswith("leak=timer:unpredicted") for k in keys) or not any("end:unpredicted:alive=[]" in k for k in keys):
+    if not any(k.endswith(want1) for k in keys) or not any("end:unpredicted:alive=[]" in k for k in keys):
         raise vlib.MachineryError("life self-test: flipped predictions gave %s" % keys)
-    chk.extra["life_binding_selftest"] = ("held-tick timer case predicted 'no timer left' / bulk case predicted 'sendLoop "
-                                          "left': driver objected to both")
+    chk.extra["life_binding_selftest"] = ("held-tick timer case predicted '%s' / bulk case predicted 'sendLoop "
+                                          "left': driver objected to both" % ("no timer left" if leaks else "timer left"))
 
 
 def _binding_selftest(chk, drv, table_path, rows):
